@@ -1517,6 +1517,7 @@ expression
         }
 
         compiler->loop_index = -1;
+        compiler->loop_for_of_var_index = -1;
         YYERROR;
       }
     | _FOR_ for_expression
